@@ -122,7 +122,7 @@ func rlweEvaluatorTarget() *Target {
 	}}
 	addF := func(e *Env) func(a, b, c *rlwe.Ciphertext) error {
 		return func(a, b, c *rlwe.Ciphertext) error {
-			r := e.RLWE.RingQ().AtLevel(c.Level())
+			r := e.RLWE.RingQ().AtLevel(minInt(c.Level(), minInt(a.Level(), b.Level())))
 			for i := 0; i < 2; i++ { // degree-1 operands by the method's contract
 				r.Add(a.Value[i], b.Value[i], c.Value[i])
 			}
